@@ -84,6 +84,7 @@ type scriptSpec struct {
 	order []int       // declaration order of the locks
 	ops   []sop
 	seed  uint64
+	abort bool // fails (failed receipt) right after it started, before any access
 }
 
 type scoreOp struct {
@@ -114,13 +115,19 @@ type txSpec struct {
 	end       int
 	script    *scriptSpec
 	inj       *inject
+	lazy      bool // wrapper neither touches nor observes the declared accounts up front (only the payer)
+	async     bool // kScore: harness asynchronous contract (writer) that inter-calls the harness SCORE
+	callee    int  // async: what the callee does
 }
 
 func (s *txSpec) String() string {
 	switch s.kind {
 	case kTransfer:
-		return fmt.Sprintf("transfer e%d->%s v=%v limit=%d msg=%d %v", s.from, s.toName, s.value, s.stepLimit, len(s.msg), s.inj)
+		return fmt.Sprintf("transfer e%d->%s v=%v limit=%d msg=%d lazy=%v %v", s.from, s.toName, s.value, s.stepLimit, len(s.msg), s.lazy, s.inj)
 	case kScore:
+		if s.async {
+			return s.asyncString()
+		}
 		m := "wld"
 		if s.isolated {
 			m = "iso"
@@ -129,6 +136,9 @@ func (s *txSpec) String() string {
 	default:
 		sc := s.script
 		var b bytes.Buffer
+		if sc.abort {
+			b.WriteString("abort ")
+		}
 		fmt.Fprintf(&b, "script world=%d locks=", sc.world)
 		for _, c := range sc.order {
 			fmt.Fprintf(&b, "c%d:%d,", c, sc.locks[c])
@@ -238,9 +248,11 @@ func (h *wrapHandler) Execute(ctx contract.Context, wcs state.WorldSnapshot, est
 	// touch the declared accounts one by one, yielding after each call: a wait for a
 	// predecessor's commit then ends at a yield point, and the real handler below
 	// runs as one chosen step instead of in the unchosen tail of such a wait
-	for k, a := range t.w.touchSet(t.spec) {
-		_ = ctx.GetAccountState(a.id())
-		x.yield(t.idx, attempt, fmt.Sprintf("a%d+", k))
+	if !t.spec.lazy {
+		for k, a := range t.w.touchSet(t.spec) {
+			_ = ctx.GetAccountState(a.id())
+			x.yield(t.idx, attempt, fmt.Sprintf("a%d+", k))
+		}
 	}
 	ar.pre = t.w.observe(ctx, t.spec)
 	rct, err := h.inner.Execute(ctx, wcs, estimate)
@@ -271,6 +283,7 @@ type scriptJSON struct {
 	Locks [][2]int `json:"locks"`
 	Ops   [][2]int `json:"ops"`
 	TS    int64    `json:"ts"`
+	Abort bool     `json:"abort,omitempty"`
 }
 
 const scriptType = "execsim-script"
@@ -289,7 +302,7 @@ type scriptTx struct {
 
 func newScriptTx(w *world, x *execCtx, idx int, spec *txSpec, ts int64) *scriptTx {
 	sc := spec.script
-	js := scriptJSON{Type: scriptType, Idx: idx, Seed: sc.seed, World: sc.world, TS: ts}
+	js := scriptJSON{Type: scriptType, Idx: idx, Seed: sc.seed, World: sc.world, TS: ts, Abort: sc.abort}
 	for _, c := range sc.order {
 		js.Locks = append(js.Locks, [2]int{c, sc.locks[c]})
 	}
@@ -391,6 +404,13 @@ func (h *scriptHandler) Execute(ctx contract.Context, wcs state.WorldSnapshot, e
 	x.mu.Unlock()
 
 	x.yield(t.idx, attempt, "start")
+	if sc.abort {
+		x.note(t.idx, "attempt %d: aborts before any access", attempt)
+		r := txresult.NewReceipt(ctx.Database(), ctx.Revision(), scriptFrom)
+		r.SetResult(module.StatusReverted, new(big.Int), new(big.Int), nil)
+		ar.rct = r
+		return r, nil
+	}
 	acc := sc.seed
 	for i, op := range sc.ops {
 		if inj.hits(attempt) && inj.at == i {
